@@ -11,7 +11,7 @@
    (correspondence + oracle over generated and mutated corpus trees). *)
 From Coq Require Import String List ZArith.
 From Prov Require Import Str StrProofs Sexp Tables Nsm NsmProofs Values Record RecordProofs World WorldProofs Jtree Json JsonProofs JsonSpec JsonRecProofs JsonContProofs
-  Xml XmlProofs XmlLabel XmlLabelProofs XmlRec XmlRead XmlRecProofs XmlReadProofs IdemProofs GoodProofs JsonValueProofs ShapeProofs KindProofs JsonPrefixProofs JsonStableProofs XmlReadDoc XmlReadDocProofs.
+  Xml XmlProofs XmlLabel XmlLabelProofs XmlRec XmlRead XmlRecProofs XmlReadProofs IdemProofs GoodProofs JsonValueProofs ShapeProofs KindProofs JsonPrefixProofs JsonStableProofs XmlReadDoc XmlReadDocProofs SingleProofs NormalWorld.
 Import ListNotations.
 Open Scope string_scope.
 
@@ -74,6 +74,32 @@ Theorem C11_json_stable : forall ft t d l,
   = OK (mkD (add_all (with_ns (bundle_init None) m) (map renorm (grouped (brecs (dmain d))))) []).
 Proof. exact json_stable_flat. Qed.
 Print Assumptions C11_json_stable.
+
+(* since finding C05-F1 is repaired, "one value per formal attribute" is a theorem about every loaded document for every
+   formal attribute but the members of a collection (C11_json_decoded_single_valued: NormalWorld.decode_doc_DNormal);
+   what is left of the premise is that no membership record lists two members *)
+Theorem C11_json_decoded_single_valued : forall ft t d b r,
+  decode_doc ft t = OK d -> In b (dmain d :: map snd (dbundles d)) -> In r (brecs b) -> NormalE r.
+Proof. exact decoded_records_normalE. Qed.
+Print Assumptions C11_json_decoded_single_valued.
+
+Theorem C11_json_stable_members : forall ft t d l,
+  decode_doc ft t = OK d -> dbundles d = [] ->
+  regd (bns (dmain d)) = map reg_entry l -> plain_regs l ->
+  match dflt (bns (dmain d)) with Some x => uri_ok (ns_uri x) = true | None => True end ->
+  let m := with_default (after l) (dflt (bns (dmain d))) in
+  Forall (fun r => length (attr_get (prov_qn "entity") (rattrs r)) <= 1) (brecs (dmain d)) ->
+  Forall (names_ok (mkCtx None ft) m) (brecs (dmain d)) ->
+  decode_doc ft (encode_doc d)
+  = OK (mkD (add_all (with_ns (bundle_init None) m) (map renorm (grouped (brecs (dmain d))))) []).
+Proof.
+  intros ft t d l H NB R P D m FE FO.
+  apply (json_stable_flat ft t d l H NB R P D); [|exact FO].
+  rewrite Forall_forall in *. intros r Hr.
+  apply NormalE_single_member_Normal; [|exact (FE r Hr)].
+  apply (decoded_records_normalE ft t d (dmain d) r H); [left; reflexivity | exact Hr].
+Qed.
+Print Assumptions C11_json_stable_members.
 
 (* any record meeting the parts is a record the round-trip theorems apply to *)
 Theorem C11_record_ok_of_parts : forall par ft m r,
